@@ -232,6 +232,10 @@ def tokens(text: str) -> list:
     toks = lex(text)
     out = []
     stack: list = []
+
+    def path() -> str:
+        # block path without the "hidden" wrappers, so clause names stay in a finite list
+        return '/' + '/'.join(b for b in stack if b != 'hidden')
     i = 0
     while i < len(toks):
         ty, val = toks[i]
@@ -239,7 +243,7 @@ def tokens(text: str) -> list:
             if not stack:
                 raise ValueError('unbalanced }')
             stack.pop()
-            out.append({'d': len(stack), 't': 'close', 'k': '', 'v': '', 'ik': '', 'n': 0})
+            out.append({'d': len(stack), 't': 'close', 'k': '', 'v': '', 'ik': '', 'n': 0, 'p': path()})
             i += 1
         elif ty == '{':
             raise ValueError('{ without a name')
@@ -248,7 +252,7 @@ def tokens(text: str) -> list:
                 raise ValueError('dangling name')
             ty2, val2 = toks[i + 1]
             if ty2 == '{':
-                out.append({'d': len(stack), 't': 'open', 'k': val, 'v': '', 'ik': '', 'n': 0})
+                out.append({'d': len(stack), 't': 'open', 'k': val, 'v': '', 'ik': '', 'n': 0, 'p': path()})
                 stack.append(val.casefold())
                 i += 2
             elif ty2 == 'S':
@@ -262,9 +266,9 @@ def tokens(text: str) -> list:
                     elif val == 'groupid' and top == 'editor':
                         kind = 'group'
                 if kind:
-                    out.append({'d': len(stack), 't': 'kv', 'k': val, 'v': '', 'ik': kind, 'n': int(val2)})
+                    out.append({'d': len(stack), 't': 'kv', 'k': val, 'v': '', 'ik': kind, 'n': int(val2), 'p': path()})
                 else:
-                    out.append({'d': len(stack), 't': 'kv', 'k': val, 'v': val2, 'ik': '', 'n': 0})
+                    out.append({'d': len(stack), 't': 'kv', 'k': val, 'v': val2, 'ik': '', 'n': 0, 'p': path()})
                 i += 2
             else:
                 raise ValueError('name followed by }')
@@ -275,9 +279,14 @@ def tokens(text: str) -> list:
 
 # ------------------------------------------------------------------ the builder: one public API call per action
 class Builder:
+    _next_tid = 0
+
     def __init__(self) -> None:
         self.vmf = VMF()
         self.hist: list = []
+        Builder._next_tid += 1
+        self.tid = Builder._next_tid
+        self.logged = 0
 
     def ent(self, e: int) -> Entity:
         return self.vmf.spawn if e == 0 else self.vmf.entities[e - 1]
@@ -431,12 +440,27 @@ class Builder:
             raise Machinery(f'unknown op {op}')
 
     def step(self, a: dict, out, sig_src: str, log: bool = True) -> None:
+        """apply one action; log (pre, action, post) unless the document is large (displacements of
+        power 3-4): the history is stored once, in the ExportParse record with the same tid"""
         pre = project(self.vmf) if log else None
+        if log and len(self.hist) > 3 and _size(pre) > 30000:
+            log = False
         self.apply(a)
         self.hist.append(a)
         if log:
-            out.write({'k': 'step', 'pre': pre, 'a': a, 'post': project(self.vmf),
-                       'sig': {'kind': 'step', 'action': a['op'], 'src': sig_src}, 'hist': list(self.hist)})
+            out.write({'k': 'step', 'tid': self.tid, 'j': len(self.hist), 'pre': pre, 'a': a, 'post': project(self.vmf),
+                       'sig': {'kind': 'step', 'action': a['op'], 'src': sig_src}})
+            self.logged += 1
+
+
+def _size(doc: dict) -> int:
+    n = 0
+    for e in [doc['world']] + doc['ents']:
+        for s in e['solids']:
+            for f in s['sides']:
+                n += 300 + 600 * len(f['disp'].get('verts', ()))
+        n += 400
+    return n
 
 
 # ------------------------------------------------------------------ export -> parse -> export
@@ -519,7 +543,7 @@ def _has_tinyneg(obj) -> bool:
     return False
 
 
-def export_parse(vmf: VMF, opts: dict, out, src: str, hist, extra_sig: dict | None = None) -> dict:
+def export_parse(vmf: VMF, opts: dict, out, src: str, hist, extra_sig: dict | None = None, tid: int = 0) -> dict:
     doc = project(vmf)
     text1 = vmf.export(inc_version=opts['inc'], minimal=opts['minimal'], disp_multiblend=opts['mb'])
     sig = {'kind': 'xp', 'action': 'ExportParse', 'src': src, 'minimal': opts['minimal'], 'mb': opts['mb'],
@@ -537,7 +561,7 @@ def export_parse(vmf: VMF, opts: dict, out, src: str, hist, extra_sig: dict | No
     stats = {'xp': 0, 'parse_fail': 0, 'patched': 0}
 
     def attempt(text: str, sig: dict) -> str:
-        rec = {'k': 'xp', 'opts': opts, 'doc': doc, 'toks1': toks1, 'tokfail': tokfail, 'sig': sig, 'hist': hist}
+        rec = {'k': 'xp', 'tid': tid, 'opts': opts, 'doc': doc, 'toks1': toks1, 'tokfail': tokfail, 'sig': sig, 'hist': hist}
         err = ''
         try:
             vmf2 = VMF.parse(Keyvalues.parse(text), preserve_ids=opts['preserve'])
@@ -547,7 +571,6 @@ def export_parse(vmf: VMF, opts: dict, out, src: str, hist, extra_sig: dict | No
         else:
             text2 = vmf2.export(inc_version=False, minimal=opts['minimal'], disp_multiblend=opts['mb'])
             doc2 = project(vmf2)
-            doc2['set']['mapVer'] = doc2['set']['mapVer']
             try:
                 toks2 = tokens(text2)
             except ValueError:
@@ -642,7 +665,8 @@ def run_history(hist_sym: list, opts: dict, rng: random.Random, out, src: str, s
     for a in hist_sym:
         b.step(finish_action(concretise(a, table)), out, src, log=log_steps)
         stats['steps'] = stats.get('steps', 0) + 1
-    st = export_parse(b.vmf, opts, out, src, list(b.hist), extra_sig)
+    stats['steps_logged'] = stats.get('steps_logged', 0) + b.logged
+    st = export_parse(b.vmf, opts, out, src, list(b.hist), extra_sig, b.tid)
     for k, v in st.items():
         stats[k] = stats.get(k, 0) + v
 
@@ -669,3 +693,60 @@ def features_of(doc: dict, opts: dict) -> dict:
         'fixups': any(e['fix'] for e in alle), 'comments': any(e['comments'] for e in alle),
         'quickhide': doc['set']['quickhide'] > 0,
     }
+
+
+# ------------------------------------------------------------------ modes
+def mode_sim(hist_file: str, out, stats: dict) -> None:
+    hists = json.load(open(hist_file))
+    rng = random.Random(hlib.seed() * 104729 + 6)
+    fvs = []
+    for h in hists:
+        run_history(h['h'], h['opts'], rng, out, 'sim', stats)
+    stats['histories'] = len(hists)
+
+
+def mode_files(out, stats: dict) -> None:
+    root = os.path.join(REPO_ROOT, 'tests')
+    paths = []
+    for dp, _, fns in os.walk(root):
+        paths += [os.path.join(dp, f) for f in fns if f.lower().endswith('.vmf')]
+    paths.sort()
+    stats['files'] = [os.path.relpath(p, REPO_ROOT) for p in paths]
+    for path in paths:
+        with open(path, encoding='cp1251') as f:
+            text = f.read()
+        rel = os.path.relpath(path, REPO_ROOT)
+        for preserve in (True, False):
+            vmf = VMF.parse(Keyvalues.parse(text), preserve_ids=preserve)
+            doc = project(vmf)
+            toks = tokens(text)
+            if preserve:
+                idsets = {k: sorted({t['n'] for t in toks if t['ik'] == k and t['k'] == 'id'}) for k in ('ent', 'solid', 'side')}
+                out.write({'k': 'parse', 'file': rel, 'toks': toks, 'doc': doc, 'idsets': idsets,
+                           'sig': {'kind': 'parse', 'action': 'Parse', 'src': 'file', 'file': rel}})
+            for minimal in (False, True):
+                opts = {'minimal': minimal, 'mb': True, 'preserve': preserve, 'inc': not minimal}
+                vmf = VMF.parse(Keyvalues.parse(text), preserve_ids=preserve)
+                st = export_parse(vmf, opts, out, 'file', [{'op': 'ParseFile', 'file': rel}], {'file': rel})
+                for k, v in st.items():
+                    stats[k] = stats.get(k, 0) + v
+
+
+def main() -> None:
+    mode = sys.argv[1]
+    stats: dict = {}
+    if mode == 'sim':
+        out = hlib.RecWriter(sys.argv[3])
+        mode_sim(sys.argv[2], out, stats)
+    elif mode == 'files':
+        out = hlib.RecWriter(sys.argv[2])
+        mode_files(out, stats)
+    else:
+        raise SystemExit(2)
+    out.close()
+    stats['records'] = out.n
+    print(json.dumps(stats))
+
+
+if __name__ == '__main__':
+    main()
